@@ -490,7 +490,9 @@ Definition handle_request_controlled (cfg : config) (m : msg) (l r : cand) : M :
                         (match osp with Some sp => pair_priority sp | None => 0 end)
                         (pair_priority p)
                    then set_selected id else nop
-                 else upd_pair id (fun p => set_p_nom_value (m_nom m) (set_p_nom_on_succ true p))
+                 else (* a plain USE-CANDIDATE does not erase the value of a deferred renomination *)
+                      upd_pair id (fun p => set_p_nom_value (match m_nom m with Some v => Some v | None => p_nom_value p end)
+                                                            (set_p_nom_on_succ true p))
                end) ;;
              send_binding_success m l r ;;
              with_state (fun s => (pair_by_id id s, selected_pair s)) (fun '(op1, osp) =>
